@@ -337,7 +337,7 @@ func buildBody(b *ABody) *schema.BodySchema {
 		if a.Desc != "" {
 			as.Description = lang.Markdown(a.Desc)
 		}
-		if a.Cons != nil && !a.Dep && !strings.HasPrefix(n, "p_") {
+		if a.Cons != nil && !strings.HasPrefix(n, "p_") {
 			as.Constraint = buildECons(a.Cons)
 		}
 		if !a.Addr.IsNil() {
